@@ -547,6 +547,7 @@ struct HirV<'tcx> {
     matches: Vec<J>,
     calls: Vec<J>,
     loops: Vec<J>,
+    unsafe_blocks: Vec<J>,
 }
 
 fn pat_s<'tcx>(tcx: TyCtxt<'tcx>, p: &rustc_hir::Pat<'tcx>) -> J {
@@ -714,6 +715,14 @@ impl<'tcx> Visitor<'tcx> for HirV<'tcx> {
                     ("span".into(), span_j(self.tcx, e.span)),
                 ]));
             }
+            ExprKind::Block(blk, _) => {
+                if let rustc_hir::BlockCheckMode::UnsafeBlock(src) = blk.rules {
+                    self.unsafe_blocks.push(J::Obj(vec![
+                        ("src".into(), J::Str(format!("{:?}", src))),
+                        ("span".into(), span_j(self.tcx, e.span)),
+                    ]));
+                }
+            }
             ExprKind::Loop(_, _, src, _) => {
                 self.loops.push(J::Obj(vec![
                     ("src".into(), J::Str(format!("{:?}", src))),
@@ -732,12 +741,13 @@ fn dump_hir<'tcx>(tcx: TyCtxt<'tcx>, did: LocalDefId) -> J {
         return J::Null;
     }
     let body = tcx.hir_body_owned_by(did);
-    let mut v = HirV { tcx, owner: did, matches: vec![], calls: vec![], loops: vec![] };
+    let mut v = HirV { tcx, owner: did, matches: vec![], calls: vec![], loops: vec![], unsafe_blocks: vec![] };
     v.visit_expr(body.value);
     J::Obj(vec![
         ("matches".into(), J::Arr(v.matches)),
         ("calls".into(), J::Arr(v.calls)),
         ("loops".into(), J::Arr(v.loops)),
+        ("unsafe_blocks".into(), J::Arr(v.unsafe_blocks)),
     ])
 }
 
